@@ -3,9 +3,10 @@
 The verified code is the file from /repo byte-for-byte plus an appended `#[cfg(kani)] mod`.
 Harness files (units/<unit>/*.kani.rs) start with a header line
     //@@ append <repo-relative source file>
-and may contain `//@@ span <repo-file> <NAME> :: <begin anchor> ::: <end anchor>` directives that are
-replaced by a `macro_rules! NAME { () => { <real text between the anchors, inclusive> } }` definition
-(path B: a real statement span evaluated inside a harness function that supplies the free names).
+and may contain `//@@ span <repo-file> <NAME> :: <begin anchor> ::: <end anchor>` (a real statement span) or
+`//@@ fnspan <repo-file> <NAME> <ItemPath>` (a whole real fn item) definitions; every `/*@@paste NAME*/` is replaced by
+that real text (path B: the real statements / methods are compiled inside a harness function or a shim `impl`
+that supplies their free names).
 """
 import os
 import re
@@ -69,6 +70,19 @@ def expand_spans(text, repo, spans_log):
         return "// span %s = %s lines %d-%d" % (name, rel, src.count("\n", 0, s) + 1, src.count("\n", 0, e) + 1)
 
     text = re.sub(r"^[ \t]*//@@\s+span\s+(\S+)\s+(\w+)\s*::\s*(.*?)\s*:::\s*(.*?)\s*$", define, text, flags=re.M)
+
+    def define_fn(m):
+        rel, name, path = m.group(1), m.group(2), m.group(3)
+        src = open(os.path.join(repo, rel), encoding="utf-8").read()
+        try:
+            f = rs.find_fn(src, path)
+        except rs.ScanError as e:
+            raise KaniSetupError("fnspan %s: %s" % (name, e))
+        spans[name] = src[f.start:f.end]
+        spans_log.append({"name": name, "file": rel, "item": path, "repo_lines": [src.count("\n", 0, f.start) + 1, src.count("\n", 0, f.end) + 1]})
+        return "// fnspan %s = %s %s" % (name, rel, path)
+
+    text = re.sub(r"^[ \t]*//@@\s+fnspan\s+(\S+)\s+(\w+)\s+(\S+)\s*$", define_fn, text, flags=re.M)
 
     def paste(m):
         if m.group(1) not in spans:
